@@ -3,6 +3,8 @@ import HmfVerif.Gen.ExprFilters
 import HmfVerif.Gen.ExprFlow
 import HmfVerif.Proofs.AnalysisWindows
 import HmfVerif.Proofs.QuadLemmas
+import HmfVerif.Gen.Guards
+import HmfVerif.Spec.Guards
 /-!
 # C05 — the slope dlnσ/dlnm is the derivative of the σ returned
 -/
@@ -109,5 +111,8 @@ theorem tophat_slope_is_derivative_of_returned_sigma (ks Ps : List ℝ) (dlnk t 
   rw [Real.exp_log hx] at this
   exact this
 end DiscreteSlope
+
+/-- the guards of the window and of its derivative are the documented ones; no new special case -/
+theorem guards_filters : Gen.Guards.filters = Spec.Guards.filters := by decide
 
 end Hmf.C05
